@@ -15,6 +15,7 @@
 //! Op vocabulary (the Lean driver `Woodpile/Driver/SlidingDeque.lean` speaks the same):
 //!   push v | front | back | pop_front | pop_back | advance n | clear | slide
 //!   wfront v | wback v | wat i v | from v1,v2,..
+//!   iterscript <script>   iterator-protocol script (`iterscript.rs`) on `deque.iter()` (the Deref slice's iterator)
 //!   at k <op>   : restart from snapshot k (a `clone()`; snapshot 0 = the fresh deque),
 //!                 run <op>, and record the result as snapshot k+1 (dropping deeper ones).
 //!                 This is how the exhaustive enumeration walks the tree of op sequences
@@ -592,7 +593,43 @@ impl SdExec {
     }
 }
 
+impl SdExec {
+    /// `iterscript <script>`: an iterator-protocol script (`iterscript.rs`) on the iterator of the
+    /// `Deref` slice of both real deques (`deque.iter()`: double-ended, exact size), against a `Vec` of
+    /// the reference deque's items.  The deques are not changed.
+    fn run_iterscript(&mut self, script: &str) -> StepOut {
+        use crate::iterscript as its;
+        let Some(steps) = its::parse(script) else { return StepOut::bad() };
+        let mut so = StepOut::default();
+        let cur = &self.cur;
+        let items: Vec<String> = cur.r.iter().map(|x| x.to_string()).collect();
+        let res = catch_unwind(AssertUnwindSafe(|| {
+            let a = its::run_both("C15", "vec: iter() of the Deref slice against the reference deque", &steps, script, its::double_ended(cur.v.iter(), |x: &u32| x.to_string(), its::cap_for(items.len())), items.clone(), true);
+            let b = its::run_both("C15", "smallvec: iter() of the Deref slice against the reference deque", &steps, script, its::double_ended(cur.s.iter(), |x: &u32| x.to_string(), its::cap_for(items.len())), items.clone(), true);
+            (a, b)
+        }));
+        match res {
+            Err(_) => {
+                self.dead = true;
+                so.obs.push("panic".into());
+                so.violations.push(format!("C15 panic in `iterscript {}`", script));
+            }
+            Ok(((oa, da), (ob, db))) => {
+                so.violations.extend(da);
+                so.violations.extend(db);
+                so.obs.push(format!("vec {}", oa));
+                so.obs.push(format!("small {}", ob));
+            }
+        }
+        so.tags.push("op_iterscript".into());
+        so
+    }
+}
+
 impl Exec for SdExec {
+    fn flush_before(&self, w: &[&str]) -> bool {
+        matches!(w, ["iterscript", ..])
+    }
     fn step(&mut self, w: &[&str]) -> StepOut {
         if self.dead {
             return StepOut::obs("dead");
@@ -601,6 +638,7 @@ impl Exec for SdExec {
             return so;
         }
         match w {
+            ["iterscript", script] => self.run_iterscript(script),
             ["at", k, rest @ ..] => {
                 let (Ok(k), Some(op)) = (k.parse::<usize>(), parse_op(rest)) else { return StepOut::bad() };
                 if k >= self.snaps.len() {
@@ -816,6 +854,18 @@ impl Family for SDequeFamily {
                 cases.push(ops);
             }
         }
+        // iterator protocol (track gen3): every script of <= 2 (thorough: 3) non-consuming steps over the
+        // small alphabet, alone and followed by each consuming step, on a deque with a consumed prefix
+        // (5 items left of 8), on a one-item deque and on an empty one
+        for (k, setup) in [vec!["from 1,2,3,4,5,6,7,8", "advance 3"], vec!["push 9"], vec![]].into_iter().enumerate() {
+            let depth = if k == 0 { if thorough { 3 } else { 2 } } else { if thorough { 2 } else { 1 } };
+            let scripts = crate::iterscript::enum_scripts(depth, true, 7);
+            for chunk in scripts.chunks(250) {
+                let mut ops: Vec<String> = setup.iter().map(|s| s.to_string()).collect();
+                ops.extend(chunk.iter().map(|sc| format!("iterscript {}", sc)));
+                cases.push(ops);
+            }
+        }
         let plain = if thorough { 5 } else { 4 };
         let mut idx = vec![0usize; plain];
         loop {
@@ -916,6 +966,9 @@ impl Family for SDequeFamily {
                 }
                 12 => ops.push("front".into()),
                 _ => ops.push("back".into()),
+            }
+            if rng.chance(1, 12) {
+                ops.push(format!("iterscript {}", crate::iterscript::gen_script(rng, len, true)));
             }
         }
         if unwinding {
